@@ -375,11 +375,54 @@ class Body:
         return "\n".join(out)
 
 
+# definition paths the rules name (public type and trait names of the crate; the module they are defined in is not part
+# of the API when it is re-exported): a type or trait of the same NAME found at another path is presented under the
+# canonical one
+CANONICAL_PATHS = (
+    "model::SeparableNonlinearModel", "basis_function::BasisFunction",
+    "solvers::levmar::LevMarProblem", "solvers::levmar::builder::LevMarProblemBuilder", "solvers::levmar::LevMarSolver",
+    "solvers::levmar::FitResult", "solvers::levmar::builder::LevMarBuilderError", "statistics::FitStatistics", "statistics::Error",
+    "model::SeparableModel", "model::builder::SeparableModelBuilder", "model::builder::UnfinishedModel",
+    "model::builder::modelfunction_builder::ModelBasisFunctionBuilder", "model::builder::error::ModelBuildError",
+    "model::model_basis_function::ModelBasisFunction", "model::errors::ModelError", "util::weights::Weights", "util::DiagMatrix",
+)
+
+
+def canonicalise_paths(text, j):
+    """rename moved definitions to their canonical paths in the raw fact text; returns (text, {actual: canonical})"""
+    import re
+    have = set(a["path"] for a in j.get("adts", []))
+    for im in j.get("impls", []):
+        if im.get("trait"):
+            have.add(im["trait"].split("<", 1)[0])
+    for b in j.get("bodies", []):
+        tr = (b.get("impl") or {}).get("trait")
+        if tr:
+            have.add(tr.split("<", 1)[0])
+    ren = {}
+    for c in CANONICAL_PATHS:
+        if c in have:
+            continue
+        name = c.rsplit("::", 1)[-1]
+        cands = [p_ for p_ in have if p_.rsplit("::", 1)[-1] == name and "::" in p_ and not p_.startswith(("std::", "core::", "alloc::", "nalgebra", "levenberg_marquardt", "rayon", "num_"))]
+        if len(cands) == 1:
+            ren[cands[0]] = c
+    for actual, canon in sorted(ren.items(), key=lambda kv: -len(kv[0])):
+        text = re.sub(r"(?<![A-Za-z0-9_:])" + re.escape(actual) + r"(?![A-Za-z0-9_])", canon, text)
+    return text, ren
+
+
 class Facts:
     def __init__(self, path_or_json):
+        self.renamed = {}
         if isinstance(path_or_json, str):
             with open(path_or_json) as f:
-                j = json.load(f)
+                text = f.read()
+            j = json.loads(text)
+            text2, ren = canonicalise_paths(text, j)
+            if ren:
+                j = json.loads(text2)
+                self.renamed = ren
         else:
             j = path_or_json
         self.j = j
